@@ -1105,6 +1105,8 @@ def add_time_after_dose(model: Model):
     idlab = temp.datainfo.id_column.name
     df = model.dataset.copy()
     df['_NEWTIME'] = temp.dataset[idv]
+    # Remember the record order: the sorting on dose id below must not leak into the result
+    df['_ROWORDER'] = np.arange(len(df))
 
     try:
         addl = temp.datainfo.typeix['additional'][0].name
@@ -1136,7 +1138,9 @@ def add_time_after_dose(model: Model):
         df = df[~df['EXPANDED']].reset_index(drop=True)
         df.drop(columns=['EXPANDED'], inplace=True)
 
-    df.drop(columns=['_NEWTIME', '_DOSEID'], inplace=True)
+    # Restore the record order of the input dataset
+    df = df.sort_values(by='_ROWORDER', kind='stable').reset_index(drop=True)
+    df.drop(columns=['_NEWTIME', '_DOSEID', '_ROWORDER'], inplace=True)
 
     # FIXME: Temp workaround, should be canonicalized in Model.replace
     di = update_datainfo(model.datainfo, df)
